@@ -257,7 +257,7 @@ func runAggregationLarge(raw json.RawMessage, seed int64) (res Result) {
 	m := w.Msg("m1")
 	h := w.Hasher("kmac", "m1")
 	H := w.HashPoint("kmac", "m1")
-	sizes := []int{127, 128, 129, 255, 256, 257, 130 + w.Rng.Intn(200), 511, 513}
+	sizes := []int{127, 128, 129, 255, 256, 257, 130 + w.Rng.Intn(200), 511, 513, 1023, 1024, 1025, 2048}
 	const pool = 24
 	var sks []crypto.PrivateKey
 	var scal []*big.Int
@@ -310,7 +310,10 @@ func runAggregationLarge(raw json.RawMessage, seed int64) (res Result) {
 			res.Evals++
 		}
 		// one malformed signature anywhere in the list is reported
-		for _, pos := range []int{0, 1, 126, 127, 128, 129, n / 2, n - 2, n - 1} {
+		for _, pos := range []int{0, 1, 126, 127, 128, 129, n / 2, n - 1024, n - 1023, n - 2, n - 1} {
+			if pos < 0 {
+				continue
+			}
 			if pos >= n {
 				continue
 			}
